@@ -105,6 +105,18 @@ def check_pinned(ctx, f, call, var):
             return bool(pinned)
         return False
 
+    # the variable may be the target of a comprehension that encloses the construction (a loop turned into a
+    # comprehension): same judgement as for a ``for`` statement, on the generator's iterable
+    for comp in ast.walk(f.node):
+        if isinstance(comp, (ast.ListComp, ast.SetComp, ast.GeneratorExp, ast.DictComp)) and any(n is call for n in ast.walk(comp)):
+            for g in comp.generators:
+                if any(isinstance(n, ast.Name) and n.id == var for n in ast.walk(g.target)):
+                    names = [n.id for n in ast.walk(g.iter) if isinstance(n, ast.Name)]
+                    pinned = [nm for nm in names if defs.defs.get(nm) and all(_is_pin_value(v) for v in defs.defs[nm])]
+                    if pinned:
+                        return None
+                    return [f"line {comp.lineno}: comprehension target {var} iterates {unparse(g.iter)[:80]}, which is not a pinned collection"]
+
     starts = [cfg.entry] if var in defs.params else []
     starts += [s for s in cfg.stmts() if defines(s) and not is_pin_def(s)]
     if not starts and var not in defs.params:
